@@ -7,6 +7,7 @@
 pub mod datum;
 pub mod generate;
 pub mod jsontree;
+pub mod schemajson;
 pub mod term;
 
 use std::collections::HashMap;
